@@ -30,6 +30,13 @@ func InitBLS() {
 type FWallet struct {
 	WName string
 	id    uuid.UUID
+	// Accts is what Accounts() offers.
+	Accts []e2wtypes.Account
+}
+
+// NewFWallet creates a wallet offering the given accounts.
+func NewFWallet(name string, accts []e2wtypes.Account) *FWallet {
+	return &FWallet{WName: name, Accts: accts}
 }
 
 func (w *FWallet) ID() uuid.UUID   { return w.id }
@@ -37,7 +44,10 @@ func (w *FWallet) Type() string    { return "fake" }
 func (w *FWallet) Name() string    { return w.WName }
 func (w *FWallet) Version() uint   { return 1 }
 func (w *FWallet) Accounts(_ context.Context) <-chan e2wtypes.Account {
-	ch := make(chan e2wtypes.Account)
+	ch := make(chan e2wtypes.Account, len(w.Accts))
+	for _, a := range w.Accts {
+		ch <- a
+	}
 	close(ch)
 	return ch
 }
@@ -123,6 +133,11 @@ func (a *acctCore) Pub48() phase0.BLSPubKey {
 	return p
 }
 func (a *acctCore) core() *acctCore { return a }
+
+// Lock, Unlock and IsUnlocked make every harness account an AccountLocker (any passphrase unlocks).
+func (a *acctCore) Lock(_ context.Context) error                { return nil }
+func (a *acctCore) Unlock(_ context.Context, _ []byte) error    { return nil }
+func (a *acctCore) IsUnlocked(_ context.Context) (bool, error) { return true, nil }
 
 // Acct is what the harness needs from every account kind.
 type Acct interface {
